@@ -108,6 +108,35 @@ func text(r *hv.Rng, n int) []byte {
 	return b
 }
 
+// chunk-size lines (with their line end) at the boundaries of parseHexUint / readLine.
+// ok: the reader accepts the line; n: the size it denotes then (the generator supplies exactly n data bytes).
+type sizeLine struct {
+	line string
+	ok   bool
+	n    int
+}
+
+var sizeLines = []sizeLine{
+	{"5\r\n", true, 5}, {"a\r\n", true, 10}, {"A\r\n", true, 10}, {"4f\r\n", true, 79}, {"4F\r\n", true, 79},
+	{"000000000000005\r\n", true, 5},  // 15 digits
+	{"0000000000000005\r\n", true, 5}, // 16 digits: the longest accepted
+	{"000000000000004f\r\n", true, 79},
+	{"5 \r\n", true, 5}, {"5\t\r\n", true, 5}, {"5\n", true, 5}, {"5\r\r\n", true, 5}, // trailing blanks, bare LF
+	{"0000000000000000\r\n", true, 0}, {"00\r\n", true, 0},
+	{"00000000000000005\r\n", false, 0}, // 17 digits
+	{"10000000000000000\r\n", false, 0}, // 2^64: wraps to 0 if the length guard is off by one
+	{"10000000000000005\r\n", false, 0}, // 2^64+5: wraps to 5
+	{"1000000000000004f\r\n", false, 0}, // 2^64+79
+	{"000000000000000000000005\r\n", false, 0},
+	{"\r\n", false, 0}, {"\n", false, 0}, {" \r\n", false, 0}, // empty size line
+	{"5;x=1\r\n", false, 0}, {"5 ;x\r\n", false, 0}, // chunk extensions are not supported
+	{" 5\r\n", false, 0}, {"0x5\r\n", false, 0}, {"+5\r\n", false, 0}, {"-5\r\n", false, 0}, {"5g\r\n", false, 0},
+	{"8000000000000000\r\n", false, 0}, // 2^63: accepted as a size, the data never comes
+	{"ffffffffffffffff\r\n", false, 0}, // 2^64-1
+	{"7fffffffffffffff\r\n", false, 0},
+	{"6\r\n", false, 0}, // one more than the data that follows in layout 2: CRLF check fails
+}
+
 func script(key string, src, rd, status int, hdrs [][2]string, pieces [][]byte, errf int) hv.Val {
 	hs := hv.L{}
 	for _, kv := range hdrs {
@@ -143,7 +172,7 @@ func gen(r *hv.Rng, i int, tier string) (string, hv.Val) {
 			}
 			return text(r, []int{1, 2, 5, 40, 100, 300, 600}[r.Intn(7)])
 		}
-		typ := []int{0, 0, 0, 0, 1, 2, 2, 2, 3, 4, 5, 6, 7, 8}[r.Intn(14)]
+		typ := []int{0, 0, 0, 0, 1, 2, 2, 2, 3, 4, 5, 6, 7, 8, 9, 9, 9}[r.Intn(17)]
 		if typ == 7 && !last {
 			typ = 2
 		}
@@ -157,7 +186,7 @@ func gen(r *hv.Rng, i int, tier string) (string, hv.Val) {
 		switch typ {
 		case 1:
 			method, head = "HEAD", 1
-		case 2, 3, 4, 5, 7, 8:
+		case 2, 3, 4, 5, 7, 8, 9:
 			method = []string{"POST", "PUT"}[r.Intn(2)]
 		}
 		if typ == 6 { // malformed head
@@ -222,6 +251,41 @@ func gen(r *hv.Rng, i int, tier string) (string, hv.Val) {
 			fmt.Fprintf(&hd, "Content-Length: %d\r\n", len(body)+1+r.Intn(50))
 			wire = body
 			tags["shortbody"] = true
+		case 9: // chunked body whose size line sits at a boundary of the chunk-size parser
+			hd.WriteString("Transfer-Encoding: chunked\r\n")
+			v := sizeLines[r.Intn(len(sizeLines))]
+			data := []byte("hello")
+			if v.n == 79 {
+				data = []byte(evilReq)
+			} else if v.n == 10 {
+				data = []byte("helloworld")
+			}
+			var w bytes.Buffer
+			w.WriteString(v.line)
+			if v.ok {
+				// accepted by the reader: a complete, decodable body
+				if v.n > 0 {
+					w.Write(data)
+					w.WriteString("\r\n0\r\n\r\n")
+				} else {
+					w.WriteString("\r\n")
+				}
+				tags["chunk-edge-ok"] = true
+			} else {
+				// not a valid / complete chunked body: whatever follows is inside a body that cannot be delimited
+				kind = 4
+				switch r.Intn(3) {
+				case 0: // the embedded request right after the size line
+				case 1:
+					w.WriteString("\r\n")
+				case 2:
+					w.WriteString("hello\r\n0\r\n\r\n")
+				}
+				w.WriteString(evilReq)
+				tags["chunk-edge-bad"] = true
+			}
+			body = data
+			wire = w.Bytes()
 		case 8: // bad expectations
 			if r.Bool() {
 				hd.WriteString("Expect: foo\r\nContent-Length: 3\r\n")
@@ -245,7 +309,7 @@ func gen(r *hv.Rng, i int, tier string) (string, hv.Val) {
 				src = 0
 			}
 		}
-		if (kind == 3 || typ == 8) && src == 1 {
+		if (kind == 3 || kind == 4 || typ == 8) && src == 1 {
 			src = 0
 		}
 		if rd == 2 && len(body) < 2 {
@@ -282,7 +346,7 @@ func gen(r *hv.Rng, i int, tier string) (string, hv.Val) {
 		scripts = append(scripts, script(id, src, rd, status, hdrs, pieces, errf))
 	}
 	class := fmt.Sprintf("n%d", n)
-	for _, t := range []string{"evilbody", "expect-withheld", "expect-sent", "malformed", "shortbody", "badexpect", "proxied"} {
+	for _, t := range []string{"evilbody", "expect-withheld", "expect-sent", "malformed", "shortbody", "badexpect", "proxied", "chunk-edge-ok", "chunk-edge-bad"} {
 		if tags[t] {
 			class += "-" + t
 		}
